@@ -232,6 +232,12 @@ def _deribit_world(ctx, p, fut):
         ddf.at[(h, name), "asks"] = [[0.03, size_a], [0.031, 100.0]]
         ddf.at[(h, name), "bids"] = [[0.02, size_b], [0.019, 100.0]]
     dm = DeribitOptionMarket(MarketInfo("deribit", MarketTypeEnum.deribit_option), DeribitOptionMarket.ETH, data=ddf)
+    if p.get("no_uni"):
+        # the option market alone: the account's prices are the ones the repo derives from the option history itself
+        from demeter.deribit.helper import get_price_from_data as option_prices
+        from demeter._typing import USD
+
+        return dict(markets=[dm], frames=[("deribit.data", ddf)], prices=option_prices(ddf), quote=USD, balances={DeribitOptionMarket.ETH: D(100)}, dm=dm, name=name, other=other["name"])
     prices, quote = get_price_from_data(uni.data, pool)
     return dict(markets=[uni, dm], frames=[("deribit.data", ddf), ("uni.data", uni.data)], prices=prices, quote=quote, balances={usdc: D(10000), eth: D(100)}, dm=dm, name=name, other=other["name"])
 
@@ -246,6 +252,9 @@ def _deribit_script(w, p, log):
             i = snapshot.row_id
             if i == 0:
                 dm.deposit(D(50))
+                # a read-only quote first: it must leave the book (and the supplied frame) as it found them
+                log(i, "on_bar.quote_buy", dm.estimate_cost(name, D(300)))
+                log(i, "on_bar.quote_sell", dm.estimate_cost(name, D(200), "sell"))
                 dm.buy(name, D(300))
             elif i == k:
                 # a strategy that simply tries: on a bar without a book (missing hourly snapshot) the trades are rejected
@@ -660,6 +669,9 @@ def scenarios(tier):
     # the hourly option market next to 20-minute bars: bars hh:20 and hh:40 lie between two hourly snapshots
     for k in (1, 2, 4) if tier == "quick" else (0, 1, 2, 3, 4):
         out.append(Scenario(f"deribit/20min/n6/k{k}", lookahead, params=dict(market="deribit", bars=6, k=k, interval="20min", step_min=20), shadows=DERIBIT_SHADOWS, entry=("Actuator.run", "DeribitOptionMarket.set_market_status", "DeribitOptionMarket._is_open"), **kw))
+    # the option market on its own on 20-minute bars, prices derived from the option history by the repo's helper
+    for k in (1, 2, 4) if tier == "quick" else (0, 1, 2, 3, 4):
+        out.append(Scenario(f"deribit_alone/20min/n6/k{k}", lookahead, params=dict(market="deribit", bars=6, k=k, interval="20min", step_min=20, no_uni=True), shadows=DERIBIT_SHADOWS, entry=("Actuator.run", "deribit.helper.get_price_from_data", "DeribitOptionMarket.set_market_status", "DeribitOptionMarket.estimate_cost"), **kw))
     # Squeeth on resampled 5-minute bars (the TWAP window is 7 minutes: it spans two bars' worth of the original rows)
     for k in (0, 1) if tier == "quick" else (0, 1, 2):
         out.append(Scenario(f"squeeth/5min/n3/k{k}", lookahead, params=dict(market="squeeth", bars=3 if tier == "quick" else 4, k=k, step=5, interval="5min"), shadows=SQUEETH_SHADOWS, entry=("Actuator.run", "SqueethMarket._resample", "SqueethMarket.get_twap_price"), **kw))
